@@ -1,6 +1,6 @@
 (* IBAN.generate(country_code, bank_code, account_code, branch_code=""): BBAN.from_components, then
    IBAN.from_bban with its defaults (schwifty/iban.py). *)
-From Schwifty Require Import Lib.Base Model.Clean Model.Data Model.Iban Model.Bban.
+From Schwifty Require Import Lib.Base Model.Clean Model.Data Model.Iban Model.Bban Model.Random.
 
 Definition generate_values (bank account branch : text) : list (text * text) :=
   [(k_bank, bank); (k_branch, branch); (k_account, account)].
@@ -9,3 +9,10 @@ Definition iban_generate (e : env) (cfg : iban_cfg) (T : table) (national : text
     (components : list text) (find_algo : text -> text -> option algo) (cc bank account branch : text) : outcome text :=
   do b <- from_components e components T find_algo cc (generate_values bank account branch);
   iban_from_bban e cfg T national cc b false false.
+
+(* IBAN.random(country_code, random, use_registry, **values) = from_bban(bban.country_code, BBAN.random(...)) *)
+Definition iban_random (e : env) (cfg : iban_cfg) (T : table) (national : text -> text -> outcome bool)
+    (components : list text) (find_algo : text -> text -> option algo) (R : banks)
+    (cc0 : text) (use_registry : bool) (pins : list (text * text)) (ci bi : nat) (draws : list text) : outcome text :=
+  do cb <- random_bban e components T find_algo R cc0 use_registry pins ci bi draws;
+  iban_from_bban e cfg T national (fst cb) (snd cb) false false.
